@@ -14,6 +14,130 @@ def _need(rx, src, what, flags=re.S):
     return m
 
 
+# ---------------------------------------------------------------------------------------------------------------------
+# Tolerance for behaviour-preserving rewrites.  The shape assertions below are regular expressions over the source text;
+# before they are applied every modelled function is ALPHA-RENAMED to the identifier names of the pinned tree (parameters
+# and locals in declaration order), `(void) x;` statements and comments are dropped and `{ stmt; }` around a single
+# `ee = ...` style statement is left as is.  A consistent bijective renaming of a function's parameters/locals never
+# changes its meaning, so a match on the renamed text is a true statement about the current code.  NOT tolerated (the
+# patterns then fail and the check reports the broken tie with `no-failing-input-found` unless the sweep finds a failing
+# input): reordered statements, added/removed temporaries, refactored helpers, extra parentheses.
+TYPE = (r"(?:(?:const|unsigned|signed|static|register)\s+)*(?:struct\s+\w+|u?int(?:8|16|32|64)_t|int|double|float|size_t|char|long|short|Janet\w*)\b"
+        r"(?:\s+(?:const|long|int))*")
+
+CANON = {
+    "bignat_append": ['mant', 'dig'],
+    "bignat_muladd": ['mant', 'factor', 'term', 'i', 'carry'],
+    "bignat_div": ['mant', 'divisor', 'i', 'quotient', 'remainder', 'dividend'],
+    "bignat_lshift_n": ['mant', 'n', 'oldn'],
+    "bignat_extract": ['mant', 'exponent2', 'top53', 'n', 'd1', 'd2', 'd3', 'lz', 'nbits'],
+    "convert": ['negative', 'mant', 'base', 'exponent', 'exponent2', 'mant_exp2_approx', 'exp_exp2_approx', 'exp2_approx', 'shamt'],
+    "janet_scan_number_base": ['str', 'len', 'base', 'out', 'end', 'seenadigit', 'ex', 'seenpoint', 'foundexp', 'neg', 'mant',
+                               'exp_base', 'digit', 'eneg', 'ee', 'digit'],
+    "scan_uint64": ['str', 'len', 'out', 'neg', 'end', 'seenadigit', 'base', 'accum', 'digit'],
+    "janet_scan_int64": ['str', 'len', 'out', 'neg', 'bi'],
+    "janet_scan_uint64": ['str', 'len', 'out', 'neg', 'bi'],
+    "janet_buffer_dtostr": ['buffer', 'x', 'count', 'i', 'c'],
+    "janet_scan_number": ['str', 'len', 'out'],
+}
+CANON_PP = {"number_to_string_b": ['buffer', 'x', 'fmt', 'count']}
+
+
+def _func_span(src, name):
+    for m in re.finditer(r"\b%s\s*\(" % re.escape(name), src):
+        i, depth = m.end() - 1, 0
+        p0 = i
+        while i < len(src):
+            if src[i] == "(":
+                depth += 1
+            elif src[i] == ")":
+                depth -= 1
+                if depth == 0:
+                    break
+            i += 1
+        j = i + 1
+        while j < len(src) and src[j] in " \t\r\n":
+            j += 1
+        if j < len(src) and src[j] == "{":
+            ls = src.rfind("\n", 0, m.start()) + 1
+            head = src[ls:m.start()]
+            if re.match(r"^[A-Za-z_][\w\s\*]*$", head) and not re.match(r"^\s*(return|else|if|while|for|switch)\b", head):
+                return p0, i, j, csrc.match_brace(src, j)
+    return None
+
+
+def _split_top(s):
+    out, depth, cur = [], 0, ""
+    for ch in s:
+        if ch in "([{":
+            depth += 1
+        elif ch in ")]}":
+            depth -= 1
+        if ch == "," and depth == 0:
+            out.append(cur)
+            cur = ""
+        else:
+            cur += ch
+    out.append(cur)
+    return out
+
+
+def declared_names(src, name):
+    """(span, [parameter and local names in declaration order]) of the definition of `name`, or None"""
+    sp = _func_span(src, name)
+    if not sp:
+        return None
+    p0, p1, b0, b1 = sp
+    names = []
+    for prm in _split_top(src[p0 + 1:p1]):
+        ids = re.findall(r"[A-Za-z_]\w*", prm)
+        if ids and ids != ["void"]:
+            names.append(ids[-1])
+    body = src[b0:b1]
+    for m in re.finditer(r"(?:(?<=[;{}])|(?<=for \()|(?<=for\())\s*(" + TYPE + r")(?=[\s\*])", body):
+        i, depth = m.end(), 0
+        while i < len(body) and not (body[i] == ";" and depth == 0):
+            if body[i] in "([{":
+                depth += 1
+            elif body[i] in ")]}":
+                depth -= 1
+            i += 1
+        for d in _split_top(body[m.end():i]):
+            mm = re.match(r"\s*\**\s*([A-Za-z_]\w*)", d)
+            if mm:
+                names.append(mm.group(1))
+    return sp, names
+
+
+def canonicalise(src, canon):
+    """alpha-rename parameters/locals of the functions in `canon` to the canonical names; drop `(void) x;` statements"""
+    src = re.sub(r"(?<=[;{}])(\s*)\(\s*void\s*\)\s*[A-Za-z_]\w*\s*;", r"\1", src)
+    for fn, want in canon.items():
+        r = declared_names(src, fn)
+        if not r:
+            continue
+        (p0, p1, b0, b1), cur = r
+        if len(cur) != len(want) or cur == want:
+            continue
+        fwd, bwd, ok = {}, {}, True
+        for a, b in zip(cur, want):
+            if fwd.setdefault(a, b) != b or bwd.setdefault(b, a) != a:
+                ok = False
+        text = src[p0:b1]
+        # no capture: a new name must not already be used (as a non-field identifier) by something that is not renamed
+        for a, b in fwd.items():
+            if a != b and b not in fwd and re.search(r"(?<![>.\w])%s\b" % re.escape(b), text):
+                ok = False
+        if not ok:
+            continue
+        ren = {a: b for a, b in fwd.items() if a != b}
+        if not ren:
+            continue
+        rx = re.compile(r"(?<![>.\w])(?:%s)\b" % "|".join(re.escape(a) for a in sorted(ren, key=len, reverse=True)))
+        src = src[:p0] + rx.sub(lambda m: ren[m.group(0)], text) + src[b1:]
+    return src
+
+
 def libm_log2_table():
     """log2((double) b) for b = 1..36 as computed by the libm the implementation links against, as (mantissa, exponent)
     with value = mantissa * 2^exponent exactly (mantissa < 2^53)."""
@@ -38,7 +162,7 @@ def libm_log2_table():
 
 def extract(tree):
     raw = csrc.read(tree, "src/core/strtod.c")
-    src = csrc.strip_comments(raw)
+    src = canonicalise(csrc.strip_comments(raw), CANON)
     c = {}
     # --- digit table
     m = _need(r"static\s+uint8_t\s+digit_lookup\s*\[\s*128\s*\]\s*=\s*\{([^}]*)\}", src, "digit_lookup[128]")
@@ -52,15 +176,19 @@ def extract(tree):
         raise ExtractError("BIGNAT_BASE != 2^BIGNAT_NBIT")
     # --- bignat_muladd / bignat_div / bignat_lshift_n : shape assertions (the model mirrors these statements)
     mul = csrc.func_body(src, "bignat_muladd")
-    _need(r"carry\s*=\s*\(\(uint64_t\)\s*mant->first_digit\)\s*\*\s*factor\s*\+\s*term\s*;\s*mant->first_digit\s*=\s*carry\s*%\s*BIGNAT_BASE\s*;\s*carry\s*/=\s*BIGNAT_BASE\s*;", mul, "bignat_muladd head")
-    _need(r"carry\s*\+=\s*\(\(uint64_t\)\s*mant->digits\[i\]\)\s*\*\s*factor\s*;\s*mant->digits\[i\]\s*=\s*carry\s*%\s*BIGNAT_BASE\s*;\s*carry\s*/=\s*BIGNAT_BASE\s*;", mul, "bignat_muladd loop")
+    # the width in which `digit * factor` is evaluated: 64 with the `(uint64_t)` cast on the operand, else that of the digit type
+    OPND = r"(\(\s*\(\s*(\w+)\s*\)\s*%s\s*\)|\(\s*(\w+)\s*\)\s*%s|%s)"
+    mh = _need(r"carry\s*=\s*" + OPND % (("mant->first_digit",) * 3) + r"\s*\*\s*factor\s*\+\s*term\s*;\s*mant->first_digit\s*=\s*carry\s*%\s*BIGNAT_BASE\s*;\s*carry\s*/=\s*BIGNAT_BASE\s*;", mul, "bignat_muladd head")
+    ml = _need(r"carry\s*\+=\s*" + OPND % ((r"mant->digits\[i\]",) * 3) + r"\s*\*\s*factor\s*;\s*mant->digits\[i\]\s*=\s*carry\s*%\s*BIGNAT_BASE\s*;\s*carry\s*/=\s*BIGNAT_BASE\s*;", mul, "bignat_muladd loop")
+    c["_mul_casts"] = [mh.group(2) or mh.group(3), ml.group(2) or ml.group(3)]
     _need(r"if\s*\(\s*carry\s*\)\s*bignat_append\s*\(\s*mant\s*,\s*\(uint32_t\)\s*carry\s*\)\s*;", mul, "bignat_muladd append")
     div = csrc.func_body(src, "bignat_div")
-    _need(r"for\s*\(\s*i\s*=\s*mant->n\s*-\s*1\s*;\s*i\s*>=\s*0\s*;\s*i--\s*\)\s*\{\s*dividend\s*=\s*\(\(uint64_t\)\s*remainder\s*\*\s*BIGNAT_BASE\)\s*\+\s*mant->digits\[i\]\s*;"
+    DOP = r"(?:\(\s*(\w+)\s*\)\s*)?remainder"
+    md1 = _need(r"for\s*\(\s*i\s*=\s*mant->n\s*-\s*1\s*;\s*i\s*>=\s*0\s*;\s*i--\s*\)\s*\{\s*dividend\s*=\s*\(" + DOP + r"\s*\*\s*BIGNAT_BASE\)\s*\+\s*mant->digits\[i\]\s*;"
           r"\s*if\s*\(\s*i\s*<\s*mant->n\s*-\s*1\s*\)\s*mant->digits\[i\s*\+\s*1\]\s*=\s*quotient\s*;"
           r"\s*quotient\s*=\s*\(uint32_t\)\s*\(dividend\s*/\s*divisor\)\s*;\s*remainder\s*=\s*\(uint32_t\)\s*\(dividend\s*%\s*divisor\)\s*;"
           r"\s*mant->digits\[i\]\s*=\s*remainder\s*;\s*\}", div, "bignat_div loop")
-    _need(r"dividend\s*=\s*\(\(uint64_t\)\s*remainder\s*\*\s*BIGNAT_BASE\)\s*\+\s*mant->first_digit\s*;"
+    md2 = _need(r"dividend\s*=\s*\(" + DOP + r"\s*\*\s*BIGNAT_BASE\)\s*\+\s*mant->first_digit\s*;"
           r"\s*if\s*\(\s*mant->n\s*&&\s*mant->digits\[mant->n\s*-\s*1\]\s*==\s*0\s*\)\s*mant->n--\s*;"
           r"\s*mant->first_digit\s*=\s*\(uint32_t\)\s*\(dividend\s*/\s*divisor\)\s*;", div, "bignat_div tail")
     sh = csrc.func_body(src, "bignat_lshift_n")
@@ -119,6 +247,14 @@ def extract(tree):
     _need(r"exp_base\s*=\s*10\s*;\s*base\s*=\s*2\s*;\s*ex\s*\*=\s*4\s*;", sc, "scan_number: hex float p exponent")
     _need(r"base\s*=\s*10\s*\*\s*\(str\[0\]\s*-\s*'0'\)\s*\+\s*\(str\[1\]\s*-\s*'0'\)\s*;\s*if\s*\(\s*base\s*<\s*2\s*\|\|\s*base\s*>\s*36\s*\)\s*goto\s+error\s*;", sc, "scan_number: two digit radix")
     _need(r"int\s+digit\s*=\s*digit_lookup\[\*str\s*&\s*0x7F\]\s*;\s*if\s*\(\s*\*str\s*>\s*127\s*\|\|\s*digit\s*>=\s*base\s*\)\s*goto\s+error\s*;\s*if\s*\(\s*seenpoint\s*\)\s*ex--\s*;\s*bignat_muladd\s*\(\s*&mant\s*,\s*base\s*,\s*digit\s*\)\s*;", sc, "scan_number: digit step")
+    sn = csrc.func_body(src, "janet_scan_number")
+    _need(r"^\{\s*return\s+janet_scan_number_base\s*\(\s*str\s*,\s*len\s*,\s*0\s*,\s*out\s*\)\s*;\s*\}$", sn, "janet_scan_number = janet_scan_number_base(str, len, 0, out)")
+    _need(r"if\s*\(\s*base\s*==\s*0\s*\)\s*\{\s*if\s*\(\s*str\s*\+\s*1\s*<\s*end\s*&&\s*str\[0\]\s*==\s*'0'\s*&&\s*str\[1\]\s*==\s*'x'\s*\)\s*\{\s*base\s*=\s*16\s*;\s*str\s*\+=\s*2\s*;\s*\}"
+          r"\s*else\s+if\s*\(\s*str\s*\+\s*1\s*<\s*end\s*&&\s*str\[0\]\s*>=\s*'0'\s*&&\s*str\[0\]\s*<=\s*'9'\s*&&\s*str\[1\]\s*==\s*'r'\s*\)\s*\{\s*base\s*=\s*str\[0\]\s*-\s*'0'\s*;\s*str\s*\+=\s*2\s*;\s*\}"
+          r"\s*else\s+if\s*\(\s*str\s*\+\s*2\s*<\s*end\s*&&\s*str\[0\]\s*>=\s*'0'\s*&&\s*str\[0\]\s*<=\s*'9'\s*&&\s*str\[1\]\s*>=\s*'0'\s*&&\s*str\[1\]\s*<=\s*'9'\s*&&\s*str\[2\]\s*==\s*'r'\s*\)",
+          sc, "scan_number: radix prefixes 0x / Dr / DDr")
+    _need(r"if\s*\(\s*base\s*==\s*0\s*\)\s*\{\s*base\s*=\s*10\s*;\s*\}", sc, "scan_number: default radix 10")
+    _need(r"if\s*\(\s*\*str\s*==\s*'-'\s*\)\s*\{\s*neg\s*=\s*1\s*;\s*str\+\+\s*;\s*\}\s*else\s+if\s*\(\s*\*str\s*==\s*'\+'\s*\)\s*\{\s*str\+\+\s*;\s*\}", sc, "scan_number: sign")
     su = csrc.func_body(src, "scan_uint64")
     m = _need(r"if\s*\(\s*len\s*>\s*(\w+)\s*\)\s*return\s+0\s*;", su, "scan_uint64: length limit")
     c["intLenLimit"] = csrc.cint(m.group(1))
@@ -153,6 +289,12 @@ def extract(tree):
     c["quotBits"] = width(mq.group(1), "quotient/remainder")
     _need(r"quotient\s*=\s*\(%s\)\s*\(dividend" % mq.group(1), div, "bignat_div: cast of the quotient matches its type")
     c["dividendBits"] = width(_need(r"(\w+)\s+dividend\s*;", div, "bignat_div: dividend declaration").group(1), "dividend")
+    # width of the products: the cast type if the operand is cast, otherwise the operand's own (digit / remainder) type
+    mw = set(width(t, "cast in bignat_muladd") if t else c["digitBits"] for t in c.pop("_mul_casts"))
+    dw = set(width(t, "cast in bignat_div") if t else c["quotBits"] for t in (md1.group(1), md2.group(1)))
+    if len(mw) != 1 or len(dw) != 1:
+        raise ExtractError("strtod.c: the two products in bignat_muladd / bignat_div are evaluated in different widths")
+    c["mulBits"], c["divMulBits"] = mw.pop(), dw.pop()
     c["top53Bits"] = width(_need(r"(\w+)\s+top53\s*;", ex, "bignat_extract: top53 declaration").group(1), "top53")
     sa = csrc.func_body(src, "bignat_append")
     _need(r"bignat_extra\s*\(\s*mant\s*,\s*1\s*\)\s*\[\s*0\s*\]\s*=\s*dig\s*;", sa, "bignat_append")
@@ -166,7 +308,7 @@ def extract(tree):
 def extract_pp(tree):
     """number_to_string_b (pp.c): the integer window test and the format used in each branch; print_jdn_one's number path"""
     import subprocess
-    src = csrc.strip_comments(csrc.read(tree, "src/core/pp.c"))
+    src = canonicalise(csrc.strip_comments(csrc.read(tree, "src/core/pp.c")), CANON_PP)
     body = csrc.func_body(src, "number_to_string_b")
     m = _need(r"const\s+char\s*\*fmt\s*=\s*\(\s*x\s*==\s*floor\s*\(\s*x\s*\)\s*&&\s*x\s*<=\s*JANET_INTMAX_DOUBLE\s*&&\s*x\s*>=\s*JANET_INTMIN_DOUBLE\s*\)\s*\?\s*\"%\.(\d+)f\"\s*:\s*\(\s*\"%\.\"\s*STR\s*\(\s*DBL_DIG\s*\)\s*\"g\"\s*\)\s*;",
               body, "number_to_string_b: format selection")
@@ -198,7 +340,7 @@ def render(tree):
     out.append("abbrev digitLookup : Array Nat := #[" + ", ".join(str(v) for v in tab) + "]\n")
     for k in ("nbit", "bigBase", "window", "mantBits", "mantMax", "approxPerDigit", "approxBias", "shamtBase", "shamtDiv",
               "lenLimit", "eeLimit", "eeSat", "intLenLimit", "u64Max", "i64Max", "printDigits",
-              "digitBits", "factorBits", "carryBits", "quotBits", "dividendBits", "top53Bits",
+              "digitBits", "factorBits", "carryBits", "quotBits", "dividendBits", "top53Bits", "mulBits", "divMulBits",
               "intMaxDouble", "intMinDoubleAbs", "fixedPrec", "dblDig"):
         out.append("abbrev %s : Nat := %d" % (k, c[k]))
     for k in ("hugeThresh", "tinyThresh"):
